@@ -26,7 +26,7 @@ from vlib.api import H as Harness, cover
 PROPERTY = "C34"
 LEVEL = "proof"
 _M = "twisted.names._rfc1982:SerialNumber."
-ENCODED = [_M + m for m in ("__init__", "_convertOther", "__eq__", "__lt__", "__gt__", "__le__", "__ge__",
+ENCODED = [_M + m for m in ("__init__", "_convertOther", "__eq__", "__ne__", "__lt__", "__gt__", "__le__", "__ge__",
                             "__add__", "__int__")]
 BOUNDS = {"quick": {"maxbits": 16}, "thorough": {"maxbits": 64}}
 B = {}
@@ -131,7 +131,18 @@ def ob_add_refused(a, n, bits):
     return False
 
 
-CMP_OBS = [ob_trichotomy, ob_halfring, ob_eq, ob_converse, ob_le, ob_ge]
+def ob_ne(a, b, bits):
+    if not (0 <= a < 2 ** bits and 0 <= b < 2 ** bits):
+        return True
+    x = SerialNumber(a, bits)
+    y = SerialNumber(b, bits)
+    ne = x != y
+    if abs(a - b) == 2 ** (bits - 1) and not ne:
+        return False        # half the ring apart: not equal, and `!=` says so
+    return ne == (not (x == y)) and ne == (a != b)
+
+
+CMP_OBS = [ob_trichotomy, ob_halfring, ob_eq, ob_ne, ob_converse, ob_le, ob_ge]
 ADD_OBS = [ob_add_value, ob_add_greater, ob_add_refused]
 
 
@@ -176,7 +187,11 @@ def pr_add(a, b, bits):
     return (SerialNumber(a, bits) + SerialNumber(b, bits)).__int__()
 
 
-PROBES = [pr_lt, pr_gt, pr_eq, pr_le, pr_ge, pr_add]
+def pr_ne(a, b, bits):
+    return SerialNumber(a, bits) != SerialNumber(b, bits)
+
+
+PROBES = [pr_lt, pr_gt, pr_eq, pr_ne, pr_le, pr_ge, pr_add]
 
 
 # ---- E6 driver -------------------------------------------------------------------------------------
@@ -199,8 +214,34 @@ def _shape_check():
     return bad
 
 
+_DEFAULT_NE = """
+def __ne__(self, other):
+    r = self.__eq__(other)
+    if r is NotImplemented:
+        return NotImplemented
+    return not r
+"""
+
+
+def _ne_source():
+    """which `!=` the CURRENT class has: 'class' (SerialNumber defines __ne__: its source is translated),
+    'default' (nobody below object defines it: Python's object.__ne__, i.e. the inverse of __eq__ unless
+    that is NotImplemented) or 'base:<name>' (inherited from an untranslated base: `!=` is untranslatable)"""
+    for k in SerialNumber.__mro__:
+        if k is object:
+            return "default"
+        if "__ne__" in vars(k):
+            return "class" if k is SerialNumber else "base:" + k.__name__
+    return "default"
+
+
 def _globs(smt):
-    g = {"SerialNumber": smt.PyClass(SerialNumber)}
+    cls = smt.PyClass(SerialNumber)
+    if _ne_source() == "default":
+        cls.methods["__ne__"] = ast.parse(_DEFAULT_NE).body[0]
+    elif _ne_source() != "class":
+        cls.methods.pop("__ne__", None)
+    g = {"SerialNumber": cls}
     for f in CMP_OBS + ADD_OBS + PROBES:
         g[f.__name__] = smt.PyFunc(f)
     return g
@@ -362,7 +403,8 @@ def smt_proof(tier):
     res = {"status": "unknown", "obligations": 0, "discharged": 0, "queries": 0, "samples": []}
     maxbits = BOUNDS[tier]["maxbits"]
     shape_bad = _shape_check()
-    res["samples"].append({"constructor_shape_check": "ok" if not shape_bad else "differs: %s" % shape_bad})
+    res["samples"].append({"constructor_shape_check": "ok" if not shape_bad else "differs: %s" % shape_bad,
+                           "ne_operator_translated_from": _ne_source()})
 
     # (1) the constants of the REAL constructor, executed for every width 1..max(64, maxbits)
     nconst, bad_widths, const_cex = _check_constants(max(64, maxbits))
